@@ -74,6 +74,20 @@ CHECKS = {
              "are validated against the scalar transition relation of the analysis model (SnapStep).",
         design="6 (C06), 3.5", technique="TLA+ invariants on the analysis model + trace validation of returned models and collector snapshots",
         note=DOC_NOTE),
+    "C09": dict(
+        text="spec/CookConvert.tla models conversion over a model converter with integer ratios and offsets, so TLC computes "
+             "the exact rational result of every quantity x target (every unit, both systems, fit), the best unit chosen by "
+             "the thresholds and the failure class, and checks there-and-back identity, amount preservation and best-list "
+             "membership as invariants. Every case is replayed through ScaledQuantity::convert / fit and Converter::convert; "
+             "TLC judges success/failure as specified, failure class with the quantity unchanged, amount as defined (1e-9) "
+             "and the unit chosen (spec/Trace_Convert.tla). For the bundled converter the specification carries the "
+             "real-world definitions (StdDefs): every ordered pair of units x 7 values must agree with them (1e-6) and "
+             "there-and-back / via-every-third-unit must agree with the direct conversion (1e-9). Valid CookDoc recipes go "
+             "through ScaledRecipe::convert to both systems: amounts preserved, units from the designated list, failures "
+             "unchanged and all reported.",
+        design="6 (C09), 3.6", technique="TLA+ exact-rational conversion model + TLC enumeration + replay + trace validation; standard definitions as spec constants",
+        note="Trusted: TLC; the IEEE evaluation and the tolerances are the harness' (TLC has no reals); StdDefs are the SI / US "
+             "customary definitions. A typo below the precision of units.toml itself (~1e-7) cannot be seen."),
     "C10": dict(
         text="spec/CookGroup.tla models GroupedQuantity's buckets (text and failed adds aside, unitless, one total per physical "
              "quantity, one per unknown unit) over a model converter with small integer ratios, amounts in exact quarter "
